@@ -528,12 +528,13 @@ func (arr *array) extendRune(arg py.Object) (py.Object, error) {
 		return nil, err
 	}
 
-	nxt := itr.(py.I__next__)
-
 	for {
-		o, err := nxt.M__next__()
-		if err == py.StopIteration {
-			break
+		o, err := py.Next(itr)
+		if err != nil {
+			if py.IsException(py.StopIteration, err) {
+				break
+			}
+			return nil, err
 		}
 		_, err = arr.appendRune(o)
 		if err != nil {
@@ -549,12 +550,13 @@ func (arr *array) extendI8(arg py.Object) (py.Object, error) {
 		return nil, err
 	}
 
-	nxt := itr.(py.I__next__)
-
 	for {
-		o, err := nxt.M__next__()
-		if err == py.StopIteration {
-			break
+		o, err := py.Next(itr)
+		if err != nil {
+			if py.IsException(py.StopIteration, err) {
+				break
+			}
+			return nil, err
 		}
 		_, err = arr.appendI8(o)
 		if err != nil {
@@ -570,12 +572,13 @@ func (arr *array) extendI16(arg py.Object) (py.Object, error) {
 		return nil, err
 	}
 
-	nxt := itr.(py.I__next__)
-
 	for {
-		o, err := nxt.M__next__()
-		if err == py.StopIteration {
-			break
+		o, err := py.Next(itr)
+		if err != nil {
+			if py.IsException(py.StopIteration, err) {
+				break
+			}
+			return nil, err
 		}
 		_, err = arr.appendI16(o)
 		if err != nil {
@@ -591,12 +594,13 @@ func (arr *array) extendI32(arg py.Object) (py.Object, error) {
 		return nil, err
 	}
 
-	nxt := itr.(py.I__next__)
-
 	for {
-		o, err := nxt.M__next__()
-		if err == py.StopIteration {
-			break
+		o, err := py.Next(itr)
+		if err != nil {
+			if py.IsException(py.StopIteration, err) {
+				break
+			}
+			return nil, err
 		}
 		_, err = arr.appendI32(o)
 		if err != nil {
@@ -612,12 +616,13 @@ func (arr *array) extendI64(arg py.Object) (py.Object, error) {
 		return nil, err
 	}
 
-	nxt := itr.(py.I__next__)
-
 	for {
-		o, err := nxt.M__next__()
-		if err == py.StopIteration {
-			break
+		o, err := py.Next(itr)
+		if err != nil {
+			if py.IsException(py.StopIteration, err) {
+				break
+			}
+			return nil, err
 		}
 		_, err = arr.appendI64(o)
 		if err != nil {
@@ -633,12 +638,13 @@ func (arr *array) extendU8(arg py.Object) (py.Object, error) {
 		return nil, err
 	}
 
-	nxt := itr.(py.I__next__)
-
 	for {
-		o, err := nxt.M__next__()
-		if err == py.StopIteration {
-			break
+		o, err := py.Next(itr)
+		if err != nil {
+			if py.IsException(py.StopIteration, err) {
+				break
+			}
+			return nil, err
 		}
 		_, err = arr.appendU8(o)
 		if err != nil {
@@ -654,12 +660,13 @@ func (arr *array) extendU16(arg py.Object) (py.Object, error) {
 		return nil, err
 	}
 
-	nxt := itr.(py.I__next__)
-
 	for {
-		o, err := nxt.M__next__()
-		if err == py.StopIteration {
-			break
+		o, err := py.Next(itr)
+		if err != nil {
+			if py.IsException(py.StopIteration, err) {
+				break
+			}
+			return nil, err
 		}
 		_, err = arr.appendU16(o)
 		if err != nil {
@@ -675,12 +682,13 @@ func (arr *array) extendU32(arg py.Object) (py.Object, error) {
 		return nil, err
 	}
 
-	nxt := itr.(py.I__next__)
-
 	for {
-		o, err := nxt.M__next__()
-		if err == py.StopIteration {
-			break
+		o, err := py.Next(itr)
+		if err != nil {
+			if py.IsException(py.StopIteration, err) {
+				break
+			}
+			return nil, err
 		}
 		_, err = arr.appendU32(o)
 		if err != nil {
@@ -696,12 +704,13 @@ func (arr *array) extendU64(arg py.Object) (py.Object, error) {
 		return nil, err
 	}
 
-	nxt := itr.(py.I__next__)
-
 	for {
-		o, err := nxt.M__next__()
-		if err == py.StopIteration {
-			break
+		o, err := py.Next(itr)
+		if err != nil {
+			if py.IsException(py.StopIteration, err) {
+				break
+			}
+			return nil, err
 		}
 		_, err = arr.appendU64(o)
 		if err != nil {
@@ -717,12 +726,13 @@ func (arr *array) extendF32(arg py.Object) (py.Object, error) {
 		return nil, err
 	}
 
-	nxt := itr.(py.I__next__)
-
 	for {
-		o, err := nxt.M__next__()
-		if err == py.StopIteration {
-			break
+		o, err := py.Next(itr)
+		if err != nil {
+			if py.IsException(py.StopIteration, err) {
+				break
+			}
+			return nil, err
 		}
 		_, err = arr.appendF32(o)
 		if err != nil {
@@ -738,12 +748,13 @@ func (arr *array) extendF64(arg py.Object) (py.Object, error) {
 		return nil, err
 	}
 
-	nxt := itr.(py.I__next__)
-
 	for {
-		o, err := nxt.M__next__()
-		if err == py.StopIteration {
-			break
+		o, err := py.Next(itr)
+		if err != nil {
+			if py.IsException(py.StopIteration, err) {
+				break
+			}
+			return nil, err
 		}
 		_, err = arr.appendF64(o)
 		if err != nil {
